@@ -98,7 +98,7 @@ func genAspect(r *kernel.Rand) AspectSpec {
 
 var fmScripts = []language.Script{0, language.Latin, language.Arabic, language.Han, language.Cyrillic, language.Common, language.Mongolian, language.Hebrew, language.Greek}
 
-func (e *fmEngine) Generate(seed uint64, tier string) (json.RawMessage, error) {
+func (e *fmEngine) Generate(seed uint64, tier string, run int) (json.RawMessage, error) {
 	rk := kernel.NewRand(seed, "knobs")
 	rg := kernel.NewRand(seed, "gen")
 	var c FMCase
